@@ -1,0 +1,204 @@
+//go:build verif
+
+// Add-only accessors for the C16 correspondence check of /verif (invocation
+// transport). Nothing here is compiled without the build tag "verif".
+package exec
+
+import (
+	"context"
+	"fmt"
+	"sort"
+
+	"github.com/grailbio/base/errors"
+	"github.com/grailbio/base/sync/ctxsync"
+	"github.com/grailbio/bigslice"
+	"github.com/grailbio/bigslice/stats"
+)
+
+// VerifC16Codec round-trips inv through execInvocation.GobEncode and
+// execInvocation.GobDecode (nothing else) and returns the decoded invocation.
+func VerifC16Codec(inv bigslice.Invocation) (out bigslice.Invocation, stage string, err error) {
+	e := makeExecInvocation(inv)
+	p, err := e.GobEncode()
+	if err != nil {
+		return out, "encode", err
+	}
+	var d execInvocation
+	if err := d.GobDecode(p); err != nil {
+		return out, "decode", err
+	}
+	return d.Invocation, "", nil
+}
+
+// VerifC16World is a driver-side bigmachineExecutor and a worker that are not
+// attached to any bigmachine: invocations travel from one to the other through
+// the real addInvocation / checkInvocationReader / invocationReader /
+// (*worker).Compile, in one address space.
+type VerifC16World struct {
+	b      *bigmachineExecutor
+	w      *worker
+	mgr    *machineManager
+	driver map[uint64]*verifC16Inv
+}
+
+type verifC16Inv struct {
+	inv   execInvocation
+	slice bigslice.Slice
+	tasks []*Task
+}
+
+func VerifC16NewWorld() *VerifC16World {
+	b := &bigmachineExecutor{}
+	b.locations = make(map[*Task]*sliceMachine)
+	b.invocations = make(map[uint64]execInvocation)
+	b.invocationDeps = make(map[uint64]map[uint64]bool)
+	b.encodedInvocations = newInvDiskCache()
+	w := &worker{}
+	w.cond = ctxsync.NewCond(&w.mu)
+	w.tasks = make(map[uint64]map[TaskName]*Task)
+	w.taskStats = make(map[uint64]map[TaskName]*stats.Map)
+	w.slices = make(map[uint64]bigslice.Slice)
+	// A manager that is never run: a request for a machine shows up as a
+	// send on schedc, which only VerifC16RunPrefix receives from.
+	mgr := &machineManager{machprocs: 1,
+		schedc:   make(chan *scheduleRequest),
+		unschedc: make(chan *scheduleRequest)}
+	b.managers = []*machineManager{mgr}
+	return &VerifC16World{b: b, w: w, mgr: mgr, driver: make(map[uint64]*verifC16Inv)}
+}
+
+// Close removes the invocation disk cache.
+func (x *VerifC16World) Close() { x.b.encodedInvocations.close() }
+
+func verifC16Names(all map[*Task]bool) []string {
+	var names []string
+	for t := range all {
+		names = append(names, t.Name.String())
+	}
+	sort.Strings(names)
+	return names
+}
+
+// Driver does what (*Session).run does before Eval: it makes the
+// execInvocation, invokes it, compiles the slice and freezes the environment.
+// It returns the *Result that run would return for it and the sorted names of
+// all compiled tasks.
+func (x *VerifC16World) Driver(inv bigslice.Invocation) (res *Result, names []string, err error) {
+	defer func() {
+		if e := recover(); e != nil {
+			err = fmt.Errorf("panic: %v", e)
+		}
+	}()
+	e := makeExecInvocation(inv)
+	slice := e.Invoke()
+	tasks, err := compile(e, slice, false)
+	if err != nil {
+		return nil, nil, err
+	}
+	e.Env.Freeze()
+	x.driver[e.Index] = &verifC16Inv{inv: e, slice: slice, tasks: tasks}
+	all := make(map[*Task]bool)
+	for _, t := range tasks {
+		t.all(all)
+	}
+	return &Result{Slice: slice, invIndex: e.Index, tasks: tasks}, verifC16Names(all), nil
+}
+
+// Ship sends invocation index (previously passed to Driver) to the worker the
+// way (*bigmachineExecutor).Run and compile do: addInvocation, the eager
+// serialisation check, then the cached encoding is read back and handed to
+// (*worker).Compile. stage names the step that failed; fatal tells whether
+// the error matches the executor's fatalErr.
+func (x *VerifC16World) Ship(index uint64) (stage string, names []string, fatal bool, err error) {
+	d := x.driver[index]
+	if d == nil {
+		return "unknown", nil, false, fmt.Errorf("invocation %d not compiled by Driver", index)
+	}
+	stage = "add"
+	defer func() {
+		if e := recover(); e != nil {
+			err = fmt.Errorf("panic: %v", e)
+			stage = "panic-" + stage
+		}
+	}()
+	added, err := x.b.addInvocation(d.tasks[0].Invocation)
+	if err != nil {
+		return stage, nil, errors.Match(fatalErr, err), err
+	}
+	stage = "serialize"
+	if added {
+		if err := x.b.checkInvocationReader(index); err != nil {
+			return stage, nil, errors.Match(fatalErr, err), err
+		}
+	}
+	stage = "read"
+	rc, err := x.b.invocationReader(index)
+	if err != nil {
+		return stage, nil, errors.Match(fatalErr, err), err
+	}
+	defer rc.Close()
+	stage = "compile"
+	if err := x.w.Compile(context.Background(), rc, nil); err != nil {
+		return stage, nil, errors.Match(fatalErr, err), err
+	}
+	x.w.mu.Lock()
+	all := make(map[*Task]bool)
+	for _, t := range x.w.tasks[index] {
+		all[t] = true
+	}
+	x.w.mu.Unlock()
+	return "", verifC16Names(all), false, nil
+}
+
+// RunPrefix calls the real (*bigmachineExecutor).Run on the first task of
+// invocation index and reports what happened first: Run returned (with the
+// task state it left) or Run asked the machine manager for a machine. No
+// manager is running, so in the second case the goroutine stays parked.
+func (x *VerifC16World) RunPrefix(index uint64) (returned bool, state TaskState, panicked bool) {
+	d := x.driver[index]
+	if d == nil {
+		return false, 0, true
+	}
+	task := d.tasks[0]
+	done := make(chan bool, 1)
+	go func() {
+		defer func() { done <- recover() != nil }()
+		x.b.Run(task)
+	}()
+	select {
+	case p := <-done:
+		return true, task.State(), p
+	case <-x.mgr.schedc:
+		return false, task.State(), false
+	}
+}
+
+// WorkerHas tells whether the worker holds a compiled slice for index.
+func (x *VerifC16World) WorkerHas(index uint64) bool {
+	x.w.mu.Lock()
+	defer x.w.mu.Unlock()
+	_, ok := x.w.slices[index]
+	return ok
+}
+
+// VerifC16ResultIndex returns the invocation index a *Result stands for.
+func VerifC16ResultIndex(r *Result) uint64 { return r.invIndex }
+
+// WorkerResultIndex returns the invocation index under which the worker holds
+// r as its local result, if it does.
+func (x *VerifC16World) WorkerResultIndex(r *Result) (uint64, bool) {
+	x.w.mu.Lock()
+	defer x.w.mu.Unlock()
+	for i, s := range x.w.slices {
+		if wr, ok := s.(*Result); ok && wr == r {
+			return i, true
+		}
+	}
+	return 0, false
+}
+
+// VerifC16RefIndex tells whether v is an invocationRef and returns its index.
+func VerifC16RefIndex(v interface{}) (uint64, bool) {
+	ref, ok := v.(invocationRef)
+	return ref.Index, ok
+}
